@@ -114,6 +114,11 @@ func (r *realiser) buildIface(path, key string, t reflect.Type) reflect.Value {
 		}
 		return r.buildPtr(path, rt)
 	}
+	// an expression the code only looked at through its constant value
+	// (types.Info.Types[e].Value) is realised as a literal of that value
+	if sv, ok := r.s("StringVal(L:info.Types[" + path + "].Value)"); ok && t == exprIface {
+		return reflect.ValueOf(&ast.BasicLit{Kind: token.STRING, Value: strconv.Quote(sv)})
+	}
 	if c, ok := r.s(path + "#cands"); ok && c != "" {
 		// narrowed but undecided: prefer a leaf the code did not single out
 		cands := strings.Split(c, ",")
